@@ -56,7 +56,7 @@ int parse_instruction_dotnet(AsmContext *asm_context, char *instr)
       continue;
     }
 
-    switch (table_dotnet[n].type)
+    switch (table_dotnet_fe[n].type)
     {
       case DOTNET_OP_NONE:
         add_bin8(asm_context, 0xfe, IS_OPCODE);
